@@ -34,7 +34,7 @@ def _case(draw):
     c = {"kind": kind, "precise": draw(st.booleans()), "rows": draw(st.integers(1, 5)), "feats": draw(st.integers(1, 3)),
          "place": draw(st.sampled_from(PLACEMENTS)), "side": draw(st.sampled_from(["lo", "hi"])),
          "pos": draw(st.integers(0, 14)), "seed": draw(st.integers(0, 10 ** 6)),
-         "regime": draw(st.sampled_from(["fresh", "zero", "small", "moderate", "nonuniform"]))}
+         "regime": draw(st.sampled_from(["fresh", "zero", "small", "moderate", "nonuniform", "flatbin"]))}
     if kind in ("fn", "fn_tails", "cdf", "cdf_tails", "coupling", "ar"):
         c["fam"] = draw(st.sampled_from(["lin", "quad", "cub", "rq"]))
         c["bins"] = draw(st.integers(1, 6))
